@@ -120,27 +120,34 @@ theorem open_cycle_is_error (fs : FS) (name : Bytes)
     (h : ∀ m, ∃ t, linkIter fs m name = some t) : openFS fs name = .err .invalid :=
   openAux_endless _ name h
 
-/-- View = extraction, for link-free archives. `extract ms = some t` says: `ms`
-    holds only directory and regular-file members, no regular file is used as
-    a directory, and names repeat only as directory over directory or file
-    over file; `t` is then the tree a sequential extraction into an empty root
-    creates (Model/TarFSExtract.lean: implied parents made, a later file
-    replaces the content of an earlier one). For every such archive — any
-    member order, any names — New succeeds and for every name `k` the view has
-    a key `k` exactly when the extraction created `k`: a directory inode for a
-    directory, and for a file a regular inode whose segment holds the bytes of
-    the last occurrence. Moreover the view is tree-consistent (`TreeOK`: the
-    lookup table and the children tables describe the same tree).
+/-- View = extraction, for archives in which links are only leaves.
+    `extract ms = some t` says (Model/TarFSExtract.lean): `ms` holds directory,
+    regular-file, symbolic-link and special-file members (no hard links); no
+    member has a regular file, link or special file in its directory path; a
+    regular file repeats only a regular file's name, and links and special
+    files have new names; `t` is then the tree a sequential extraction into an
+    empty root creates (implied parents made, a later file replaces the
+    content of an earlier one, a directory member over an existing name
+    changes nothing). For every such archive — any member order, any names —
+    New succeeds and for every name `k` the view has a key `k` exactly when
+    the extraction created `k`: a directory inode for a directory, a regular
+    inode whose segment holds the bytes of the last occurrence for a file, a
+    symbolic-link inode with the normalised target for a link. Moreover the
+    view is tree-consistent (`TreeOK`: the lookup table and the children
+    tables describe the same tree).
 
-    Partial: archives with links are not covered by this theorem (the
-    correspondence run and the extraction oracle of the harness cover them;
-    see the findings for what fails there). -/
+    Partial: archives with hard links, with members placed through a symbolic
+    link, or with a file written through a link are not covered by this
+    theorem (the correspondence run and the extraction oracle of the harness
+    cover them; see the findings for what fails there). -/
 theorem view_eq_extract_partial (ms : List Member) (t : XTree) (hx : extract ms = some t) :
     ∃ fs, newFS ms = .ok fs ∧ TreeOK [] fs ∧
       ∀ k, match alGet t k with
         | none => fs.get? k = none
         | some .dir => ∃ i, fs.get? k = some i ∧ (fs.ino i).kind = .dir
-        | some (.file d) => ∃ i, fs.get? k = some i ∧ (fs.ino i).kind = .reg ∧ (fs.ino i).data = some d := by
+        | some (.file d) => ∃ i, fs.get? k = some i ∧ (fs.ino i).kind = .reg ∧ (fs.ino i).data = some d
+        | some (.sym tgt) => ∃ i, fs.get? k = some i ∧ (fs.ino i).kind = .sym ∧ (fs.ino i).link = tgt
+        | some .special => ∃ i, fs.get? k = some i ∧ (fs.ino i).kind = .special := by
   obtain ⟨fs, hnew, hT, hR⟩ := newFS_plain ms t hx
   refine ⟨fs, hnew, hT, fun k => ?_⟩
   have := hR k (by simp)
@@ -151,6 +158,8 @@ theorem view_eq_extract_partial (ms : List Member) (t : XTree) (hx : extract ms 
     cases node with
     | dir => exact node?_dir this
     | file d => exact node?_file hT this
+    | sym tgt => exact node?_sym this
+    | special => exact node?_special this
 
 /-- In the reference, a regular-file member determines the content of its
     name: the last occurrence wins. -/
@@ -163,43 +172,51 @@ theorem extract_last_occurrence (t t' : XTree) (m : Member) (hk : m.kind = .reg)
   · split at h
     · cases h
     · split at h
-      · cases h
       · cases h; rw [alGet_alSet]; simp
+      · cases h; rw [alGet_alSet]; simp
+      · cases h
 
 /-- Consistent Stat: on a tree-consistent view (in particular the view of
-    every archive covered by `view_eq_extract_partial`) `Stat(p)` of a valid
-    path is the header of the key `p`, and not-exist when `p` is not a key;
-    a path that is not valid is refused with ErrInvalid. -/
-theorem view_stat (fs : FS) (h : TreeOK [] fs) (p : Bytes) :
-    statFS fs p =
-      if validPath p then
-        match fs.get? p with
-        | some i => .ok (fs.info i)
-        | none => .error .notexist
-      else .error .invalid := by
-  by_cases hp : validPath p = true
-  · simp only [hp, if_true]; exact h.stat hp
-  · simp only [hp]
-    simp only [Bool.not_eq_true] at hp
-    simp [statFS, getInode_invalid fs hp]
+    every archive covered by `view_eq_extract_partial`), for a valid path that
+    does not go through a symbolic link (`NoLinkOnPath`: no proper prefix of
+    `p` is the key of a link), `Stat(p)` is the header of the key `p`, and
+    not-exist when `p` is not a key. -/
+theorem view_stat (fs : FS) (h : TreeOK [] fs) (p : Bytes) (hp : validPath p = true)
+    (hns : NoLinkOnPath fs p) :
+    statFS fs p = match fs.get? p with
+      | some i => .ok (fs.info i)
+      | none => .error .notexist :=
+  h.stat hp hns
+
+/-- A path that is not a valid io/fs path is refused with ErrInvalid, by
+    every query, on every view. -/
+theorem invalid_path_refused (fs : FS) (p : Bytes) (hp : validPath p = false) :
+    getInode fs p = .error .invalid :=
+  getInode_invalid fs hp
 
 /-- Consistent Open: a regular file reads back the bytes of its inode's
-    segment, a directory lists its entries, exactly as ReadDir does. -/
-theorem view_open (fs : FS) (h : TreeOK [] fs) (p : Bytes) (hp : validPath p = true) :
+    segment, a directory lists its entries (the same list ReadDir gives), a
+    special file is refused, a symbolic link is followed. -/
+theorem view_open (fs : FS) (h : TreeOK [] fs) (p : Bytes) (hp : validPath p = true)
+    (hns : NoLinkOnPath fs p) :
     openFS fs p = match fs.get? p with
       | none => .err .notexist
       | some i =>
         match (fs.ino i).kind, (fs.ino i).data with
         | .dir, _ => .dir (fs.info i) (fs.entries i)
-        | _, some d => .file (fs.info i) d
-        | _, none => .err .other :=
-  h.open hp
+        | .reg, some d => .file (fs.info i) d
+        | .reg, none => .err .other
+        | .special, _ => .err .exist
+        | .sym, _ => openAux fs fs.inodes.length (fs.ino i).link
+        | .link, _ => openFS fs p :=
+  h.open hp hns
 
-theorem view_readdir (fs : FS) (h : TreeOK [] fs) (p : Bytes) (hp : validPath p = true) :
+theorem view_readdir (fs : FS) (h : TreeOK [] fs) (p : Bytes) (hp : validPath p = true)
+    (hns : NoLinkOnPath fs p) :
     readDirFS fs p = match fs.get? p with
       | some i => .ok (fs.entries i)
       | none => .error .notexist :=
-  h.readDir hp
+  h.readDir hp hns
 
 /-- A directory lists exactly the keys directly below it, under their base
     names and with their types. -/
@@ -225,7 +242,7 @@ theorem glob_sorted (fs : FS) (pat : Bytes) :
     (globFS fs pat).Pairwise (fun a b => bytesLe a b = true) :=
   globFS_sorted fs pat
 
-/-- Rejected or the same, for link-free archives: an archive of directory
+/-- Rejected or the same, for archives without any link: an archive of directory
     and regular-file members that has no defined extraction (a regular file is
     used as a directory, or a regular file replaces a directory) is rejected
     by New with an error. With `view_eq_extract_partial`: on link-free archives
